@@ -41,6 +41,8 @@ CHECKS = {
             'thorough': FLOAT_H + VALUE_H + ['value_trans_.*'],
             'assumptions': [
                 'Kani/CBMC bit-precise semantics of f64 comparison and of the derived PartialEq/PartialOrd/Ord/Hash code as compiled by Kani\'s rustc',
+                'CBMC returns one canonical NaN from floating-point arithmetic (the hardware keeps payloads): a law that depends on the payload of a COMPUTED NaN '
+                'is outside the proof; the discharged harnesses are additionally executed on the compiled code over a grid of edge values (bounded stand-in, listed under bounded_units)',
                 'String, Array, Timestamp and Interval variants are not covered by a harness (a symbolic String/Vec does not terminate in CBMC here); '
                 'their laws rest on std/chrono and on #[derive] composing lexicographically',
                 'consumers (BTreeMap, HashMap, FnvHashSet, sort, BTreeSet) are std/fnv code and are not re-verified',
@@ -217,13 +219,19 @@ CHECKS['C04'] = {
 }
 CHECKS['C15'] = {
     'verus_units': ['aggregate', 'aggdispatch'],
+    'kani': {
+        'sets': ['value_order'],
+        'quick': ['float_trichotomy', 'float_cmp_antisymmetric', 'float_cmp_transitive', 'float_cmp_agrees_with_eq', 'value_laws_float_float', 'value_laws_int_int'],
+        'thorough': ['float_.*', 'value_laws_.*'],
+        'assumptions': ['the order laws that make MIN / MAX / PERCENTILE independent of the line order are re-checked here with the C16 harnesses (scalar variants)'],
+    },
     'clause_prefixes': ['c15'],
     'technique': 'contract-based deductive verification (Verus): lemmas (induction, multiset permutation) over the step functions that the extracted GroupAggregator::update arms are proved to implement',
     'claim': 'Proof that an INT SUM that succeeds equals the mathematical sum of the values and that the mathematical sum is invariant under every permutation (multiset equality) and additive over concatenation; BOOL_AND over a concatenation is the conjunction of the parts; the MIN fold returns a lower bound of all values in any order (given the order laws of C16 as hypotheses), COUNT(DISTINCT) and PERCENTILE collect sets/multisets; the aggregator start value does not privilege the first value. Linked to the real code through the per-arm step contracts (C04). Float sums are excluded as in the property; PERCENTILE\'s sort+index and the union of group sets (table assembly) are not covered.',
     'note': 'Trusted: as C04. Order-dependence through overflow of partial sums is handled as in the code: a run either reports an error or shows the exact sum.',
     'level': 'proof',
     'explanation': 'lemma_math_sum_permutation is a full permutation-invariance proof over multisets; the other aggregates are shown commutative/associative at the step level.',
-    'trusted': COMMON_TRUST + ['value_cmp total-preorder laws enter as hypotheses (established for scalars by C16)'],
+    'trusted': COMMON_TRUST + ['value_cmp total-preorder laws enter the lemmas as hypotheses; for REAL and the other scalar variants they are re-checked by the Kani harnesses of C16 in this check'],
     'unproved': ['PERCENTILE', 'group-set union across inputs (table assembly)'],
 }
 
